@@ -285,6 +285,54 @@ def synthetic_shard(args):
     return part.done()
 
 
+def multi_component_registries(country: str, tier: str):
+    """Synthetic registries for a country whose bank-identifying key spans SEVERAL components (PL,
+    SI): entries filed under the joined key, under each component alone, under the components in
+    reverse order, under a sibling key (same first component) and under a shortened key; all
+    registries of one or two such entries (thorough: three)."""
+    c = reg.countries()[country]
+    spans = [c.span(comp) for comp in c.lookup_components]
+    body = bases.bban(c, "distinct")
+    parts = [body[s0:s1] for s0, s1 in spans]
+    full = "".join(parts)
+    last = parts[-1]
+    sibling_part = last[:-1] + ("1" if last[-1] != "1" else "2")
+    sibling = "".join(parts[:-1]) + sibling_part
+    keys = list(dict.fromkeys([full, parts[0], parts[-1], sibling, "".join(reversed(parts)), full[:-1]]))
+    bics = ["AAAA%sAA" % country, "BBBB%sBBXXX" % country, "CCCC%sCC123" % country, "", "DDDD%sDD" % country,
+            "EEEE%sEE" % country]
+    entries = [{"country_code": country, "bank_code": k, "bic": bics[i % len(bics)], "primary": i % 2 == 0,
+                "name": f"N{i}", "short_name": f"S{i}"} for i, k in enumerate(keys)]
+    regs = [[e] for e in entries] + [[a, b] for a in entries for b in entries if a is not b]
+    if tier == "thorough":
+        regs += [[a, b, d] for a in entries for b in entries for d in entries if len({id(a), id(b), id(d)}) == 3]
+    return regs, [full, sibling], keys
+
+
+def multi_component_shard(args):
+    _, country, tier = args
+    part = par.Part()
+    regs, probe_keys, keys = multi_component_registries(country, tier)
+    for banks in regs:
+        part.count((country,) + tuple((e["bank_code"], e["bic"]) for e in banks))
+        part["evals"] += 8
+        with sandbox.bank_list([dict(e) for e in banks]):
+            index = lookup.index_by_key(banks)
+            probs = []
+            for k in keys:
+                probs += [(sig, {"code": k, "expected": exp}, obs) for sig, exp, obs in check_key(index, country, k)]
+            for k in probe_keys:
+                probs += [(sig, {"iban_for": k, "expected": exp}, obs)
+                          for sig, exp, obs in (check_iban(index, country, k) or [])]
+        for sig, exp, obs in probs:
+            part.violation(sig + " [synthetic registry, key of several components]",
+                           {"kind": "c12multi", "country": country, "banks": banks}, exp, obs)
+    part.stat("synthetic_registries_multi_component", len(regs))
+    part.sample({"country": country, "lookup_components": reg.countries()[country].lookup_components,
+                 "synthetic_registry": regs[len(regs) // 2]})
+    return part.done()
+
+
 def foreign_shard(args):
     """For every country of the IBAN table: bank codes listed for OTHER countries (same lookup-field
     width) are unlisted here - an IBAN of this country carrying such a code has no bank and no BIC
@@ -324,6 +372,11 @@ def shard(args):
         return bundled_shard(args)
     if args[0] == "foreign":
         return foreign_shard(args)
+    if args[0] == "multi":
+        before = sandbox.deep_snapshot()
+        out = multi_component_shard(args)
+        sandbox.assert_restored(before)
+        return out
     before = sandbox.deep_snapshot() if args[1] == 0 else None
     out = synthetic_shard(args)
     if before is not None:
@@ -336,6 +389,16 @@ def replay(case: dict) -> dict:
         probs = check_key(lookup.by_key(), case["country"], case["code"])
     elif case["kind"] == "c12iban":
         probs = check_iban(lookup.by_key(), case["country"], case["code"]) or []
+    elif case["kind"] == "c12multi":
+        banks, country = case["banks"], case["country"]
+        _, probe_keys, keys = multi_component_registries(country, "quick")
+        probs = []
+        with sandbox.bank_list([dict(e) for e in banks]):
+            index = lookup.index_by_key(banks)
+            for k in keys:
+                probs += check_key(index, country, k)
+            for k in probe_keys:
+                probs += check_iban(index, country, k) or []
     elif case["kind"] == "c12bic":
         probs = check_bic(lookup.by_bic(), case["bic"])
     else:
@@ -350,6 +413,9 @@ def main(tier: str) -> int:
     shards += [("foreign", c, tier) for c in sorted(reg.countries())]
     # empty registry and the empty-list case
     shards += [("syn", i, tier) for i in range(len(entry_alphabet()))]
+    shards += [("multi", c, tier) for c, co in sorted(reg.countries().items())
+               if co.positions and len(co.lookup_components) > 1
+               and all(co.span(x) for x in co.lookup_components)]
     par.run_shards(run, shard, shards)
     run.exhaustive = True
     run.extra.update({
